@@ -143,6 +143,18 @@ class NBuilder(object):
             out.append(0.0)
         return tuple(out)
 
+    def opaque_regex(self, name):
+        builder = self
+        matches = [v for k, v in sorted(self.model.items()) if k.startswith("re.match")]
+
+        class _Rx(object):
+            pattern = "<configured pattern %s>" % name
+
+            def match(self_inner, s):
+                v = matches.pop(0) if matches else False
+                return object() if v else None
+        return _Rx()
+
     def spy(self, ghost, obj, method):
         import inspect
         real = getattr(obj, method)
